@@ -53,7 +53,18 @@ func sortedTxs(l *core.VerifTxList) []*types.Transaction {
 //     (TxPool.locals doc), so only non-local accounts are held to the eviction-enforced limits;
 //   - price floor: SetGasPrice "drops all transactions below this threshold" (remote only) and
 //     validateTx rejects cheaper newcomers.
-func checkSnapshot(u *universe, s *core.VerifPoolSnapshot, at *block, nonceOf func(common.InternalAddress) uint64) []finding {
+//
+// quiescent=false is used for snapshots taken under the pool lock right after a call returned (or
+// while other calls are in flight): everything above is maintained inside each critical section of
+// the pool, except the eviction-enforced size limits, which only hold after a reorg run.
+func checkSnapshot(u *universe, s *core.VerifPoolSnapshot, at *block, quiescent bool) []finding {
+	nonceOf := func(a common.InternalAddress) uint64 {
+		// the nonce tracker as of the snapshot: the noncer's cached value, else its fallback (the state)
+		if n, ok := s.PendingNonces[a]; ok {
+			return n
+		}
+		return at.st[u.idx[a]].Nonce
+	}
 	var out []finding
 	add := func(fp, format string, a ...any) {
 		out = append(out, finding{FP: "C19/" + fp, Msg: fmt.Sprintf(format, a...), Acct: -1})
@@ -292,15 +303,15 @@ func checkSnapshot(u *universe, s *core.VerifPoolSnapshot, at *block, nonceOf fu
 		queueAll += uint64(len(l.Items))
 		if !locals[addr] {
 			nonLocalQueued += uint64(len(l.Items))
-			if uint64(len(l.Items)) > cfg.AccountQueue {
+			if quiescent && uint64(len(l.Items)) > cfg.AccountQueue {
 				add("limit-account-queue", "queue[%s] holds %d > AccountQueue %d", acctName(u, addr), len(l.Items), cfg.AccountQueue)
 			}
 		}
 	}
-	if pendAll > cfg.GlobalSlots && pendOver > 0 {
+	if quiescent && pendAll > cfg.GlobalSlots && pendOver > 0 {
 		add("limit-global-slots", "%d pending > GlobalSlots %d while %d non-local account(s) exceed AccountSlots %d", pendAll, cfg.GlobalSlots, pendOver, cfg.AccountSlots)
 	}
-	if queueAll > cfg.GlobalQueue && nonLocalQueued > 0 {
+	if quiescent && queueAll > cfg.GlobalQueue && nonLocalQueued > 0 {
 		add("limit-global-queue", "%d queued > GlobalQueue %d", queueAll, cfg.GlobalQueue)
 	}
 	if uint64(len(s.AllRemotes)) > cfg.GlobalSlots+cfg.GlobalQueue {
